@@ -8,14 +8,18 @@
   `flatResult`, `flatUsed`, `stepG`) are in Phil/Proofs/FetchLemmas.lean.
 
   Scope of what is proved here:
-    * the split laws hold without any restriction (the model's sources are variable-free: a `$`
-      in a source word makes the model answer `unsupported`, so visibility of variables is not
-      an issue inside the model);
+    * the split laws hold without any restriction (the outcome of `resolve_variables` for a source
+      definition is computed ahead, in the definition's own document, and recorded in
+      `Meta.varRes`; `fetch` only reads it, so visibility of variables is not an issue inside
+      `fetchRoot`);
     * "last value wins" is proved for *plain* master definitions (not `.multiple`, not
       `.deprecated`, type not a choice) at root level with definition-only sources — for every
       master at the level of one iteration of the master loop (`last_wins_step`) and of the whole
       result (`last_wins`), and as a complete description of the result for flat masters
-      (`fetch_flat`, which also shows that such a fetch cannot fail);
+      (`fetch_flat`, which also shows that such a fetch cannot fail).  The sources must be `SrcOK`:
+      either a successful variable resolution is recorded (`varRes = some (.ok rws refs)`; then
+      the resolved words `rws` are the value that competes, `Obj.srcWords`) or nothing is recorded
+      and the words are `$`-free (`srcWords_none`/`srcOK_of_plain` give the variable-free reading);
     * the accumulation rule for `.multiple` objects is exhibited on a concrete instance only.
 -/
 import Phil.Proofs.FetchLemmas
@@ -44,27 +48,46 @@ theorem empty_source_neutral (e : Envs) (diff : Bool) (master : List Obj) (ss : 
 /-! ### 2. last value wins -/
 
 /-- **Last value wins (one master child).**  At root level (`sm.name = []`), in non-diff mode, with
-    variable-free sources consisting of definitions, the iteration of the master loop for a plain
-    master definition `mm` appends exactly one object — the master definition carrying the words of
-    the *last* enabled source definition called `mm.name` (the master definition itself when there
-    is none) — and marks all enabled source definitions of that name as consumed. -/
+    sources consisting of definitions whose variable resolution succeeds (`SrcOK`), the iteration
+    of the master loop for a plain master definition `mm` appends exactly one object — the master
+    definition carrying the (resolved) words of the *last* enabled source definition called
+    `mm.name` (the master definition itself when there is none) — and marks all enabled source
+    definitions of that name as consumed, together with the definitions consulted while resolving
+    their variables (`marksOf d = idOf d ++ srcRefs d`). -/
 theorem last_wins_step (F : FetchFn) (e : Envs) (fuel : Nat) (sm : Meta) (mkids combined : List Obj)
     (st : List Obj × List Nat) (idx : Nat) (mm : Meta) (mws : List Word)
     (hsm : sm.name = []) (hsd : sm.disabled = false) (hname : mm.name ≠ []) (hp : PlainMeta mm)
-    (hdef : ∀ o ∈ combined, o.isDefn = true) (hdol : ∀ o ∈ combined, hasDollar o.words = false) :
+    (hdef : ∀ o ∈ combined, o.isDefn = true) (hsrc : ∀ o ∈ combined, SrcOK o) :
     stepG F e fuel false sm mkids combined st (idx, .defn mm mws) =
       .ok (st.1 ++ [lastWins (.defn mm mws) (activeNamed mm.name combined)],
-           st.2 ++ (activeNamed mm.name combined).flatMap idOf) :=
-  Phil.last_wins_step F e fuel sm mkids combined st idx mm mws hsm hsd hname hp hdef hdol
+           st.2 ++ (activeNamed mm.name combined).flatMap marksOf) :=
+  Phil.last_wins_step F e fuel sm mkids combined st idx mm mws hsm hsd hname hp hdef hsrc
 
 /-- `lastWins` spelled out: with enabled source definitions `d₁ … dₖ` (k ≥ 1) of that name the result
     child is `.defn {mm with tmpl := 0} (words of dₖ)` … -/
 theorem lastWins_some (mm : Meta) (mws : List Word) (l : List Obj) (d : Obj) (h : l.getLast? = some d) :
-    lastWins (.defn mm mws) l = .defn { mm with tmpl := 0 } d.words := by
+    lastWins (.defn mm mws) l = .defn { mm with tmpl := 0 } d.srcWords := by
   unfold lastWins; rw [h]; rfl
 
 /-- … and with none it is the master definition itself. -/
 theorem lastWins_none (mo : Obj) : lastWins mo [] = mo := rfl
+
+/-- the words that compete: the resolved words when a successful resolution is recorded … -/
+theorem srcWords_resolved (m : Meta) (ws rws : List Word) (refs : List Nat)
+    (h : m.varRes = some (.ok rws refs)) : (Obj.defn m ws).srcWords = rws := by
+  unfold Obj.srcWords; simp only [Obj.meta]; rw [h]
+
+/-- … and the definition's own words when nothing is recorded (variable-free sources). -/
+theorem srcWords_none (o : Obj) (h : o.meta.varRes = none) : o.srcWords = o.words :=
+  srcWords_of_varRes_none o h
+
+/-- variable-free sources (the hypothesis of the previous version of these theorems) are `SrcOK` … -/
+theorem srcOK_of_plain (o : Obj) (h : o.meta.varRes = none) (hd : hasDollar o.words = false) : SrcOK o :=
+  SrcOK.of_none h hd
+
+/-- … and mark their own ids only. -/
+theorem marksOf_none (o : Obj) (h : o.meta.varRes = none) : marksOf o = idOf o :=
+  marksOf_of_varRes_none o h
 
 /-- **Last value wins (whole result, any master).**  Under the same hypotheses on the sources, the
     children of the result contain, for every active plain master definition, that master
@@ -72,25 +95,26 @@ theorem lastWins_none (mo : Obj) : lastWins mo [] = mo := rfl
 theorem last_wins (e : Envs) (fuel : Nat) (sm : Meta) (mkids combined : List Obj)
     (rm : Meta) (out : List Obj) (used : List Nat)
     (hsm : sm.name = []) (hsd : sm.disabled = false)
-    (hdef : ∀ o ∈ combined, o.isDefn = true) (hdol : ∀ o ∈ combined, hasDollar o.words = false)
+    (hdef : ∀ o ∈ combined, o.isDefn = true) (hsrc : ∀ o ∈ combined, SrcOK o)
     (h : fetchScope e fuel false sm mkids combined = .ok (.scope rm out, used))
     (actives : List (Nat × Obj)) (hact : masterActiveObjects mkids = .ok actives)
     (idx : Nat) (mm : Meta) (mws : List Word) (hmem : (idx, Obj.defn mm mws) ∈ actives)
     (hname : mm.name ≠ []) (hp : PlainMeta mm) :
     ∃ pre post, out = pre ++ lastWins (.defn mm mws) (activeNamed mm.name combined) :: post :=
-  Phil.last_wins e fuel sm mkids combined rm out used hsm hsd hdef hdol h actives hact idx mm mws
+  Phil.last_wins e fuel sm mkids combined rm out used hsm hsd hdef hsrc h actives hact idx mm mws
     hmem hname hp
 
 /-- **Flat masters: the complete result.**  For a master consisting of enabled plain definitions
-    with pairwise distinct names, the fetch of definition-only variable-free sources succeeds and
-    its result is the master with each definition carrying the last value given for it; the
-    consumed definitions are all enabled source definitions whose name the master declares. -/
+    with pairwise distinct names, the fetch of definition-only `SrcOK` sources succeeds and
+    its result is the master with each definition carrying the last (resolved) value given for it;
+    the consumed definitions are all enabled source definitions whose name the master declares
+    (and the definitions consulted while resolving their variables). -/
 theorem fetch_flat (e : Envs) (fuel : Nat) (sm : Meta) (mkids combined : List Obj)
     (hf : FlatMaster mkids) (hsm : sm.name = []) (hsd : sm.disabled = false)
-    (hdef : ∀ o ∈ combined, o.isDefn = true) (hdol : ∀ o ∈ combined, hasDollar o.words = false) :
+    (hdef : ∀ o ∈ combined, o.isDefn = true) (hsrc : ∀ o ∈ combined, SrcOK o) :
     fetchScope e (fuel + 1) false sm mkids combined =
       .ok (.scope { sm with tmpl := 0 } (flatResult mkids combined), flatUsed mkids combined) :=
-  Phil.fetch_flat e fuel sm mkids combined hf hsm hsd hdef hdol
+  Phil.fetch_flat e fuel sm mkids combined hf hsm hsd hdef hsrc
 
 /-! ### non-vacuity and a concrete instance of accumulation -/
 
